@@ -285,7 +285,7 @@ func runC13(r *vfw.Run) {
 		}
 		return
 	}
-	o := scen.Opts{MinIdent: 2, MaxIdent: 14, CeremonySoon: true, Contracts: r.Choose("c13.contracts", 2) == 0}
+	o := scen.Opts{MinIdent: 2, MaxIdent: 14, CeremonySoon: true, Contracts: r.Choose("c13.contracts", 2) == 0, SmallShards: true}
 	lr := newLedgerRun(r, o, 25, 40)
 	if o.Contracts {
 		lr.l.Mix.Contracts = 3
